@@ -297,6 +297,7 @@ pub fn engine(rep: &mut Report, focus: &str, n: usize, seed: u64, thorough: bool
     }
     if focus == "C13" {
         c13_ascii_sweep(rep);
+        c13_long_ranges(rep, &mut rng, thorough);
     }
     if focus == "C02" || focus == "C03" {
         look_scope(rep, &mut rng, focus, thorough);
@@ -387,6 +388,78 @@ fn look_scope(rep: &mut Report, rng: &mut Rng, focus: &str, thorough: bool) {
                         }
                     }
                 }
+            }
+        }
+    }
+}
+
+/// C13, long byte ranges: back-references (forward, backward, case-insensitive) to captures of every
+/// length 1..=80 (thorough 200) and literals of the same lengths, against text that equals the capture
+/// except at ONE position (every position near the ends and the 8/16/32-byte marks, and none): the byte-range
+/// comparisons of the ASCII entry points must agree with the UTF-8 ones and with the executor model.
+fn c13_long_ranges(rep: &mut Report, rng: &mut Rng, thorough: bool) {
+    let shapes: [(&str, &str); 5] = [
+        ("^(.+),\\1$", "s"),
+        ("^(.+),\\1$", "is"),
+        ("^(.+),.+(?<=\\1);$", "s"),
+        ("(?<w>[ab]+),\\k<w>;", ""),
+        ("^(?:(.+),)\\1$", "su"),
+    ];
+    let res: Vec<(Regex, Regex, String)> = shapes
+        .iter()
+        .map(|(p, f)| {
+            let re = compile(p, f, false).unwrap();
+            let tok = prog_token(&re);
+            (re, compile(p, f, true).unwrap(), tok)
+        })
+        .collect();
+    let max = if thorough { 200 } else { 80 };
+    for len in 1..=max {
+        let w: Vec<u8> = (0..len).map(|_| *rng.pick(&[b'a', b'b'])).collect();
+        let mut ds: BTreeSet<usize> = BTreeSet::new();
+        for d in [0usize, 1, 7, 8, 9, 15, 16, 17, 31, 32, 33, len / 2] {
+            if d < len {
+                ds.insert(d);
+                ds.insert(len - 1 - d);
+            }
+        }
+        let mut variants: Vec<Option<usize>> = ds.into_iter().map(Some).collect();
+        variants.push(None);
+        for d in variants {
+            let mut w2 = w.clone();
+            if let Some(d) = d {
+                w2[d] = if w2[d] == b'a' { b'b' } else { b'a' };
+            }
+            let ws = String::from_utf8(w.clone()).unwrap();
+            let w2s = String::from_utf8(w2).unwrap();
+            let hay = format!("{},{};", ws, w2s);
+            let hay2 = format!("{},{}", ws, w2s);
+            for (k, (re, ren, tok)) in res.iter().enumerate() {
+                let h = if shapes[k].0.ends_with("$") && !shapes[k].0.contains(";") { &hay2 } else { &hay };
+                let label = format!("/{}/{} on {:?}", shapes[k].0, shapes[k].1, h);
+                rep.case(&label, d.is_none());
+                rep.count("long-range");
+                let base = run_exec(re, Exec::Bt, h, 0, 64);
+                for (r, e) in [(re, Exec::BtAscii), (re, Exec::Pk), (re, Exec::PkAscii), (ren, Exec::Bt), (ren, Exec::BtAscii), (ren, Exec::PkAscii)] {
+                    let y = run_exec(r, e, h, 0, 64);
+                    if differ(&base.text, &y.text) {
+                        rep.violation("impl-vs-impl:C13", format!("{} [{}] vs backtracker/utf8 [{}] (capture of {} bytes, difference at {:?})", e.name(), y.text, base.text, len, d), label.clone());
+                    }
+                }
+                let a = run_exec(re, Exec::BtAscii, h, 0, 64);
+                rep.tie(format!("runprog bt ascii {} {} {}", tok, ast::bytes_hex(h.as_bytes()), 0), format!("ok {} {} {}", a.steps, a.peak, a.text).trim_end().to_string());
+            }
+            // the literal itself (chunked into byte sequences by the emitter) against the near-duplicate
+            let lit = compile(&format!("^{}$", ws), "", false).unwrap();
+            let x = run_exec(&lit, Exec::Bt, &w2s, 0, 64);
+            for e in [Exec::BtAscii, Exec::Pk, Exec::PkAscii] {
+                let y = run_exec(&lit, e, &w2s, 0, 64);
+                if differ(&x.text, &y.text) {
+                    rep.violation("impl-vs-impl:C13", format!("literal of {} bytes, difference at {:?}: {} [{}] vs backtracker/utf8 [{}]", len, d, e.name(), y.text, x.text), format!("/^{}$/ on {:?}", ws, w2s));
+                }
+            }
+            if x.text.is_empty() != d.is_some() {
+                rep.violation("impl-vs-oracle:C13", format!("literal of {} bytes against text differing at {:?}: [{}]", len, d, x.text), format!("/^{}$/ on {:?}", ws, w2s));
             }
         }
     }
